@@ -70,6 +70,8 @@ def body_of(q):
     from harness import serving
     if q['fault'] == 'nofeature':
         return f"rid\n{q['body']}\n".encode()
+    if q['fault'] == 'renamed':
+        return f"rid,valve\n{q['body']},{q.get('delay', 0)}\n".encode()
     delay = serving.POISON if q['fault'] == 'poison' else q.get('delay', 0)
     return f"rid,delay\n{q['body']},{delay}\n".encode()
 
@@ -215,7 +217,7 @@ def plan(rnd, size, napps, base):
     batch = []
     for k in range(size):
         q = {'app': f'app{rnd.randint(1, napps)}' if rnd.random() < 0.9 else 'nope', 'ctype': _pick(rnd, CT_MENU),
-             'accept': _pick(rnd, ACCEPT_MENU), 'body': base + k, 'fault': rnd.choice(['none'] * 8 + ['nofeature', 'poison']),
+             'accept': _pick(rnd, ACCEPT_MENU), 'body': base + k, 'fault': rnd.choice(['none'] * 9 + ['nofeature', 'renamed', 'poison']),
              'delay': rnd.choice([0, 0, 1, 3, 7, 15])}
         q['ctype_text'] = render(q['ctype'], rnd)
         q['accept_text'] = render(q['accept'], rnd)
